@@ -44,6 +44,10 @@ fn main() {
         probe(&args[1]);
         return;
     }
+    if id == "c34-dump" {
+        c34::dump(std::path::Path::new(&args[1]), args[2].parse().unwrap_or(1));
+        return;
+    }
     vcore::quiet_panics();
     let ctx = vcore::Ctx::new(&id, &args[1.min(args.len())..]);
     match id.as_str() {
